@@ -265,6 +265,7 @@ def run(ctx: Ctx) -> None:
     for b in replay_cases(ctx, cases):
         ctx.violation(b["sig"], f"{b['sig']['what']}: {b['detail'][:300]}", {"case": b["case"], "detail": b["detail"]})
     constants_and_defaults(ctx)
+    between_kinds(ctx)
     ctx.evaluations += ctx.replayed
     ctx.exhaustive = not quick
 
@@ -365,6 +366,14 @@ def constants_and_defaults(ctx: Ctx) -> None:
         if not (r.k is dflt or r.k == dflt or (r.k != r.k and dflt != dflt)):  # noqa: PLR0124
             ctx.violation({"what": "parameter_default_not_preserved", "default_type": type(dflt).__name__}, f"default {dflt!r} arrived as {r.k!r}", {})
     ctx.extra["constant_and_default_cases"] = len(values) + 5
+
+
+def between_kinds(ctx: Ctx) -> None:
+    """'all pairs of models (all model kinds ...)': the field-wise copy between every ordered pair of model kinds of one logical model
+    (spec/Kinds.tla ConvertObj; shared with C17) - constructor parameters that are spelled differently from the field (attrs _private),
+    keyword-only parameters, TypedDict keys, SQLAlchemy columns"""
+    from .c17 import converters
+    converters(ctx)
 
 
 def replay(path: str) -> int:
